@@ -133,8 +133,7 @@ def r09_3(ctx: Ctx):
     fn = e.inverse
     lp = e.level_loop(fn)
     it = lp.iter
-    ok = isinstance(it, ast.Call) and isinstance(it.func, ast.Name) and it.func.id == 'range' and \
-        isinstance(it.args[-1], ast.Attribute) and it.args[-1].attr == dens
+    ok = e.loop_bound_attr(fn, lp) == dens
     ctx.check(ok, rid, fn.short, fn.loc(lp), 'the inverse descent iterates the same number of levels',
               f'the inverse descent iterates {ast.unparse(it)}, the forward descent range(self.{dens})',
               key=f'{rid}::{fn.short}::levels')
